@@ -40,16 +40,16 @@ def _get_story_duration(story_tag: Element) -> Optional[float]:
     if payload is None:
         return
 
-    try:
-        return float(payload.find('StoryDuration').text)
-    except AttributeError:
-        pass
+    # a tag which is present but empty holds no value: same as an absent one
+    story_duration = payload.findtext('StoryDuration')
+    if story_duration is not None and story_duration != '':
+        return float(story_duration)
 
-    text_time = payload.find('TextTime')
-    media_time = payload.find('MediaTime')
+    text_time = payload.findtext('TextTime') or None
+    media_time = payload.findtext('MediaTime') or None
     if text_time is not None or media_time is not None:
-        text_time = float(text_time.text) if text_time is not None else 0
-        media_time = float(media_time.text) if media_time is not None else 0
+        text_time = float(text_time) if text_time is not None else 0
+        media_time = float(media_time) if media_time is not None else 0
         return text_time + media_time
 
 
@@ -277,7 +277,8 @@ class Story(MosElement):
             metadata = self.xml.find('mosExternalMetadata')
             mos_payload = metadata.find('mosPayload')
             start_time = mos_payload.find('StoryStarted').text
-            return parse(start_time)
+            if start_time is not None:
+                return parse(start_time)
         except AttributeError:
             pass
 
@@ -296,7 +297,8 @@ class Story(MosElement):
             metadata = self.xml.find('mosExternalMetadata')
             mos_payload = metadata.find('mosPayload')
             end_time = mos_payload.find('StoryEnded').text
-            return parse(end_time)
+            if end_time is not None:
+                return parse(end_time)
         except AttributeError:
             pass
 
